@@ -304,8 +304,6 @@ Proof.
   rewrite Hsockcb.
   set (s2 := call_unregw c nested (Some id) s1) in *.
   (* on_socket_close: after its event the application knows of no open socket *)
-  assert (W3 : win id (emit (SockClose id) s2) -> False \/ True) by (intros; right; exact I).
-  clear W3.
   (* run the close site: first as a window over the pre-event invariant, then convert *)
   unfold run_site. cbn [andb].
   set (s3 := obs (WCb SiClose) (emit (SockClose id) s2)).
